@@ -251,14 +251,20 @@ def s_match_constant(ctx):
     I.models[numpy_] = lambda interp: arr
     tensor.fields["numpy"] = numpy_
     value = SObj(ir.Value, "value")
-    value.fields.update(const_value=(tensor if has_const else None), name="v")
+    overridable = ctx.choose(2, "value is also a graph input (a default the caller may override)") == 1
+
+    def f_gi():
+        raise AssertionError
+    I.models[f_gi] = lambda interp: overridable
+    value.fields.update(const_value=(tensor if has_const else None), name="v", is_graph_input=f_gi)
     clo = I.closure_of(_matcher.SimplePatternMatcher._match_constant)
     r = I.run_closure(clo, [self, pc, value], {})
     ab = lambda t: z3.If(t >= 0, t, -t)
     mx = z3.If(ab(cval) >= ab(pval), ab(cval), ab(pval))
     lim = z3.If(rel * mx >= abs_, rel * mx, abs_)
     close = ab(cval - pval) <= lim
-    want = z3.And(z3.BoolVal(has_const and ndim == 0), close)
+    # a graph input with a default value is not a constant (C04: 'never folded into constants')
+    want = z3.And(z3.BoolVal(has_const and not overridable and ndim == 0), close)
     ctx.check("C06.matcher.match_constant.scalar_matches_iff_known_scalar_constant_within_tolerance",
               (z3.BoolVal(r) if isinstance(r, bool) else term(r)) == want, "C06: 'constants agree within the stated tolerance'")
 
